@@ -27,7 +27,7 @@ def seq_fresh(st, es, hint='s'):
 def seq_of(st, v):
     """Sequence value of a list / seq / tuple-like Val."""
     if v.t.kind == 'list':
-        return st.list_seq(v.z, v.t.args[0]), v.t.args[0]
+        return st.list_seq(_name_ite(st, v.z), v.t.args[0]), v.t.args[0]
     if v.t.kind == 'seq':
         return v.z, v.t.args[0]
     if v.t.kind == 'tuple':
@@ -40,6 +40,33 @@ def seq_of(st, v):
                 arr = z3.Store(arr, i, it.z)
             return SeqV(arr, z3.IntVal(len(items))), et
     raise Undecided('not a sequence: %r' % (v.t,))
+
+
+def _has_ite(t):
+    seen = set()
+    todo = [t]
+    while todo:
+        x = todo.pop()
+        if x.get_id() in seen:
+            continue
+        seen.add(x.get_id())
+        if z3.is_app(x) and x.decl().kind() == z3.Z3_OP_ITE:
+            return True
+        todo.extend(x.children())
+    return False
+
+
+def _name_ite(st, ref):
+    """A reference term that contains an if-then-else cannot occur in a quantifier pattern: name it."""
+    if st.qdepth > 0 or not _has_ite(ref):
+        return ref
+    cache = st.ghost.setdefault('$ite_names', {})
+    k = ref.get_id()
+    if k not in cache:
+        r = st.fresh(ref.sort(), 'ref')
+        st.assume(r == ref)
+        cache[k] = (r, ref)      # keep the term alive
+    return cache[k][0]
 
 
 def seq_literal(st, items, et):
@@ -768,7 +795,16 @@ def binop(st, op, a, b):
         ref = st.new_ref('set')
         st.set_store(ref, ea, sv)
         return Val(T.TSet(ea), ref)
+    if ka == 'list' and kb in ('set', 'dict', 'int', 'real', 'str', 'bytes', 'none', 'bool') and isinstance(op, ast.Add) \
+            and not st.spec:
+        # list.__add__ accepts lists only ("can only concatenate list (not "set") to list")
+        E.raise_exc(st, 'TypeError')
     if ka in ('list', 'seq') and kb in ('list', 'seq') and isinstance(op, ast.Add):
+        # an empty list literal takes the element type of the other operand
+        if ka == 'list' and a.t.args[0].kind == 'unknown' and b.t.args and b.t.args[0].kind != 'unknown':
+            st.init_empty(a, T.TList(b.t.args[0]))
+        if kb == 'list' and b.t.args[0].kind == 'unknown' and a.t.args and a.t.args[0].kind != 'unknown':
+            st.init_empty(b, T.TList(a.t.args[0]))
         sa, ea = seq_of(st, a)
         sb, eb = seq_of(st, b)
         if ea != eb:
@@ -906,6 +942,10 @@ _MODULE_ATTRS = {
     ('socket', 'AF_INET'): ('int', 2), ('socket', 'AF_INET6'): ('int', 10),
     ('socket', 'AF_UNIX'): ('int', 1), ('socket', 'SOCK_STREAM'): ('int', 1),
     ('socket', 'SOCK_DGRAM'): ('int', 2), ('subprocess', 'PIPE'): ('int', -1),
+    # Linux open(2) flags
+    ('os', 'O_RDONLY'): ('int', 0), ('os', 'O_WRONLY'): ('int', 1), ('os', 'O_RDWR'): ('int', 2),
+    ('os', 'O_CREAT'): ('int', 64), ('os', 'O_EXCL'): ('int', 128), ('os', 'O_TRUNC'): ('int', 512),
+    ('os', 'O_APPEND'): ('int', 1024),
 }
 
 
